@@ -64,6 +64,19 @@
 //!         the observed choice `@woken=<0|1>` on the op line and as meta line `#woken <c> <t> <0|1>`: a waker may fire
 //!         spuriously, but once min(done, deadline) has been reached it must have fired (the model checks the obligation:
 //!         `probe woken <c> lost-wakeup` otherwise).  0 for a call never polled, resolved or dropped.
+//! Construction context (optional; an op file without it means what it meant):
+//! header  `built=<here|other-idle|other-dropped>`: which tokio runtime is CURRENT while the layer value and the services are
+//!         constructed (the builder chain, `.build()`, `Layer::layer` -> `TimeLimiter::new`).  `here` (default): the case's
+//!         own runtime, the one every call is made and polled on.  `other-idle`: a SECOND current-thread runtime (time
+//!         enabled, not paused), entered (`Runtime::enter`) only for the construction and then kept alive but never driven —
+//!         a start-up `block_on` that has returned; one such runtime per case, kept until the adapter goes away.
+//!         `other-dropped`: a throw-away second runtime per construction, entered for it and shut down right after — the
+//!         start-up runtime is gone when the first call is made.  Clones of handles are always taken on the case's runtime.
+//! arrive  `built=<…>`: the same for the service (and, after `forget layer=1`, the layer value) THIS arrival builds lazily;
+//!         default: the header's.  Meta line `#built <t> svc=<k> <where>` for every service built elsewhere.
+//!         A time limiter is a value: what it does must not depend on which runtime happened to be current when it was
+//!         assembled; the calls — timers, the detached task of the non-cancelling mode — belong to the runtime they are
+//!         made on (`tokio::spawn`, `tokio::time::sleep`).
 //! Results are rendered through the error type's accessors as well as by pattern: `is_timeout()`, `into_inner()` and the
 //! conversion into `ResilienceError` must say what the variant says; if not, `!accessors:…` is appended to the text.
 //!
@@ -258,6 +271,71 @@ fn wrapped(kv: &Kv) -> Inner {
     i
 }
 
+/// which runtime is current while something is constructed (`built=`)
+#[derive(Clone, Copy, PartialEq)]
+enum Built {
+    Here,
+    OtherIdle,
+    OtherDropped,
+}
+
+impl Built {
+    fn parse(s: Option<&str>) -> Option<Built> {
+        match s {
+            Some("here") => Some(Built::Here),
+            Some("other-idle") => Some(Built::OtherIdle),
+            Some("other-dropped") => Some(Built::OtherDropped),
+            _ => None,
+        }
+    }
+    fn text(self) -> &'static str {
+        match self {
+            Built::Here => "here",
+            Built::OtherIdle => "other-idle",
+            Built::OtherDropped => "other-dropped",
+        }
+    }
+}
+
+/// a second tokio runtime of this thread: never driven (no `block_on`), only entered for constructions.  A runtime must not
+/// be dropped where blocking is not allowed (we are inside the case's `block_on`): `shutdown_background` is the drop that
+/// does not wait for the (empty) blocking pool — the scheduler is shut down, tasks handed to it from then on are dropped
+/// at once, exactly as after `drop(runtime)`.
+struct Elsewhere(Option<tokio::runtime::Runtime>);
+
+impl Elsewhere {
+    fn new() -> Elsewhere {
+        Elsewhere(Some(tokio::runtime::Builder::new_current_thread().enable_time().build().expect("second runtime")))
+    }
+    /// run `f` with this runtime current (`Handle::try_current()` answers it), then make the case's runtime current again
+    fn within<R>(&self, f: impl FnOnce() -> R) -> R {
+        let _enter = self.0.as_ref().expect("second runtime alive").enter();
+        f()
+    }
+}
+
+impl Drop for Elsewhere {
+    fn drop(&mut self) {
+        if let Some(rt) = self.0.take() {
+            rt.shutdown_background();
+        }
+    }
+}
+
+/// run a construction in the context `built` asks for (`idle`: the case's kept second runtime, made when first needed)
+fn construct<R>(built: Built, idle: &mut Option<Elsewhere>, f: impl FnOnce() -> R) -> R {
+    match built {
+        Built::Here => f(),
+        Built::OtherIdle => idle.get_or_insert_with(Elsewhere::new).within(f),
+        Built::OtherDropped => {
+            let rt = Elsewhere::new();
+            let r = rt.within(f);
+            drop(rt);
+            r
+        }
+    }
+}
+
 /// one service built from the layer: the handle `layer()` returned, and the handles callers keep
 struct Entry {
     base: Svc,
@@ -278,6 +356,10 @@ pub struct Adapter {
     per_req: PerReq,
     /// arguments of the timeout setter the chain applied last: (per-request?, duration / default)
     src: (bool, Duration),
+    /// the header's construction context, and the second runtime of `other-idle` (kept, never driven); declared last: it
+    /// outlives every service built under it
+    built: Built,
+    idle: Option<Elsewhere>,
 }
 
 impl Adapter {
@@ -288,16 +370,25 @@ impl Adapter {
         WATCH.with(|m| m.borrow_mut().clear());
         let per_req: PerReq = Arc::new(Mutex::new(HashMap::new()));
         let inner = wrapped(kv);
-        let (layer, src) = build_chain(kv.get("via").unwrap_or("builder"), &chain_of(kv), &per_req, true);
+        let built = Built::parse(kv.get("built")).unwrap_or(Built::Here);
+        let mut idle = None;
+        let ((layer, src), base) = construct(built, &mut idle, || {
+            let made = build_chain(kv.get("via").unwrap_or("builder"), &chain_of(kv), &per_req, true);
+            let base = made.0.make(inner.clone());
+            (made, base)
+        });
+        if built != Built::Here {
+            log_raw(format!("#built {} svc=0 {}", now_ms(), built.text()));
+        }
         let mut svcs = BTreeMap::new();
-        svcs.insert(0, Entry { base: layer.make(inner.clone()), handles: BTreeMap::new() });
-        Adapter { header: kv.clone(), inner: Some(inner), layer: Some(layer), svcs, gone: false, per_req, src }
+        svcs.insert(0, Entry { base, handles: BTreeMap::new() });
+        Adapter { header: kv.clone(), inner: Some(inner), layer: Some(layer), svcs, gone: false, per_req, src, built, idle }
     }
+}
 
-    /// the layer value again, from the header (after `forget layer=1`)
-    fn build_layer(&self) -> LayerV {
-        build_chain(self.header.get("via").unwrap_or("builder"), &chain_of(&self.header), &self.per_req, false).0
-    }
+/// the layer value again, from the header (after `forget layer=1`)
+fn build_layer(header: &Kv, per_req: &PerReq) -> LayerV {
+    build_chain(header.get("via").unwrap_or("builder"), &chain_of(header), per_req, false).0
 }
 
 fn inner_text(e: &IErr) -> String {
@@ -477,11 +568,21 @@ impl Mw for Adapter {
         let req = Req::new(c, kv);
         let k = kv.u64("svc", 0);
         if !self.svcs.contains_key(&k) {
-            if self.layer.is_none() {
-                self.layer = Some(self.build_layer());
+            let built = Built::parse(kv.get("built")).unwrap_or(self.built);
+            let inner = self.inner.as_ref().unwrap().clone();
+            let (header, per_req, layer_slot) = (&self.header, &self.per_req, &mut self.layer);
+            let via_clone = kv.u64("lc", 0) == 1;
+            let base = construct(built, &mut self.idle, || {
+                let layer = layer_slot.get_or_insert_with(|| build_layer(header, per_req));
+                if via_clone {
+                    layer.dup().make(inner)
+                } else {
+                    layer.make(inner)
+                }
+            });
+            if built != Built::Here {
+                log_raw(format!("#built {} svc={} {}", now_ms(), k, built.text()));
             }
-            let (layer, inner) = (self.layer.as_ref().unwrap(), self.inner.as_ref().unwrap().clone());
-            let base = if kv.u64("lc", 0) == 1 { layer.dup().make(inner) } else { layer.make(inner) };
             self.svcs.insert(k, Entry { base, handles: BTreeMap::new() });
         }
         let entry = self.svcs.get_mut(&k).unwrap();
